@@ -364,8 +364,12 @@ def history_case(draw, tier="quick"):
         ops = [["push", draw(_pool), draw(st.booleans()), "same"] for _ in range(n)] + ops
     if kind in ("none", "empty0", "ubuf", "uparam") and draw(st.integers(0, 4)) > 0:
         # make sure the lazily created storage is reached: start with a push
+        # the first push may carry another dtype than the one the placeholder declares: only None
+        # storage adopts the observation's dtype, a declared dtype must be kept
         ops = [["push", draw(_pool), draw(st.booleans()),
-                draw(st.sampled_from(["same", "float32", "float64"])) if kind == "none" else "same"]] + ops
+                draw(st.sampled_from(["same", "float32", "float64", "int64"])) if (kind == "none" or dtype != "bool") else "same"]] + ops
+        if draw(st.booleans()):
+            ops.insert(1, ["push", draw(_pool), draw(st.booleans()), "same"])
     return {"dt": dt, "duration": duration, "inclusive": incl, "kind": kind, "dtype": dtype,
             "shape": shape, "ops": ops}
 
